@@ -111,6 +111,26 @@ def consistency(ctx: Ctx):
                 b.attrs["__children__"][:] = []
     attach_nsmap(unc)
     variants["child whose BaseContainer has no RestrictionCriteria"] = unc
+    # forward-referenced diamond: SCI nests DIA_M and then DIA_N, DIA_M itself nests DIA_N, both declared after SCI
+    dia = clone_tree(g1)
+    try:
+        cs = find_all(dia, "ContainerSet")[0]
+        sci = next(e for e in find_all(dia, "SequenceContainer") if e.attrs["attrib"].get("name") == "SCI")
+        el = next(c for c in sci.attrs["__children__"] if is_elem(c) and split_tag(c.attrs["tag"])[1] == "EntryList")
+        pref = next(c for c in el.attrs["__children__"] if is_elem(c) and split_tag(c.attrs["tag"])[1] == "ParameterRefEntry")
+        ns_uri = split_tag(sci.attrs["tag"])[0]
+        T = (lambda t: "{%s}%s" % (ns_uri, t)) if ns_uri else (lambda t: t)
+        pname = pref.attrs["attrib"]["parameterRef"]
+        append(el, make_elem(T("ContainerRefEntry"), {"containerRef": "DIA_M"}))
+        append(el, make_elem(T("ContainerRefEntry"), {"containerRef": "DIA_N"}))
+        append(cs, make_elem(T("SequenceContainer"), {"name": "DIA_M"}, children=[
+            make_elem(T("EntryList"), children=[make_elem(T("ContainerRefEntry"), {"containerRef": "DIA_N"})])]))
+        append(cs, make_elem(T("SequenceContainer"), {"name": "DIA_N"}, children=[
+            make_elem(T("EntryList"), children=[make_elem(T("ParameterRefEntry"), {"parameterRef": pname})])]))
+        attach_nsmap(dia)
+        variants["forward-referenced diamond (a container nested directly and through another nested container)"] = dia
+    except (StopIteration, IndexError, KeyError):
+        ctx.unknown("R17.g", f"{LOAD}::graph::diamond", "could not build the diamond variant from the written document")
     for name, doc in variants.items():
         site = f"{LOAD}::graph::{name}"
         try:
